@@ -87,11 +87,15 @@ def issue(ver, name, value, ti, dictsec, si):
 def classify_rt(ver, ni, cp, value, ti, dn, dictsec, si):
     if ver == 2 and len(cp) == 1 and ord(cp) > 127:
         return "v2-nonascii-name-length"
+    if ver == 2 and cp == "\n":
+        return "v2-newline-in-name"
     return None
 
 
 def pre_rt(ver: int, ni: int, cp: str, value: bytes, ti: int, dn: int, dictsec: bool, si: int) -> bool:
     if "v2-nonascii-name-length" in P.exclude and ver == 2 and len(cp) == 1 and ord(cp) > 127:
+        return False
+    if "v2-newline-in-name" in P.exclude and ver == 2 and cp == "\n":
         return False
     if not (1 <= ver <= 2 and 0 <= ni < len(NAMES) and len(cp) <= 1 and len(value) <= P.V):
         return False
@@ -102,8 +106,8 @@ def pre_rt(ver: int, ni: int, cp: str, value: bytes, ti: int, dn: int, dictsec: 
     return in_shard(ti + 4 * (ver - 1) + 8 * len(value) + 8 * (P.V + 1) * len(cp))
 
 
-@harness(pre=pre_rt, quick=dict(V=2, timeout=120, reach_timeout=60), thorough=dict(V=4, timeout=900),
-         nshards=dict(quick=48, thorough=80), reach=["rt_v1", "rt_v2_dict", "rt_last_second"],
+@harness(pre=pre_rt, quick=dict(V=1, timeout=90, reach_timeout=60), thorough=dict(V=4, timeout=900),
+         nshards=dict(quick=32, thorough=80), reach=["rt_v1", "rt_v2_dict", "rt_last_second"],
          classify=classify_rt,
          units=["web.create_signed_value", "web.decode_signed_value", "web._get_version",
                 "web._decode_signed_value_v1", "web._decode_signed_value_v2", "web._decode_fields_v2",
@@ -162,13 +166,15 @@ def classify_forge(ver, ni, cp, value, ti, dictsec, si, op, pos, b, ni2, cp2, dn
     name, name2 = mkname(ni, cp), mkname(ni2, cp2)
     if name2 != name and name2.startswith(name) and op in (3, 4):
         return "v1-name-boundary-shift"
+    if op == 5 and name2 == name:
+        return "v1-value-timestamp-boundary-shift"
     return None
 
 
 def pre_forge(ver: int, ni: int, cp: str, value: bytes, ti: int, dictsec: bool, si: int,
               op: int, pos: int, b: int, ni2: int, cp2: str, dnow: int, dictsec2: bool, si2: int,
               minv: int) -> bool:
-    if not (1 <= ver <= 2 and 0 <= ni < len(NAMES) and len(cp) <= P.C and len(value) <= P.V):
+    if not (1 <= ver <= 2 and 0 <= ni < P.NI and len(cp) <= P.C and len(value) <= P.V):
         return False
     if not (0 <= ti < len(TIMES) and ti % P.TSTEP == 0 and 0 <= si <= 1 and 0 <= si2 <= 1 and 0 <= op <= 5):
         return False
@@ -184,9 +190,9 @@ def pre_forge(ver: int, ni: int, cp: str, value: bytes, ti: int, dictsec: bool, 
     return in_shard(op + 6 * (ver - 1) + 12 * ni)
 
 
-@harness(pre=pre_forge, quick=dict(V=1, C=0, TSTEP=3, timeout=150, reach_timeout=120),
-         thorough=dict(V=3, C=1, TSTEP=1, timeout=1400, reach_timeout=300),
-         nshards=dict(quick=48, thorough=48),
+@harness(pre=pre_forge, quick=dict(V=1, C=0, NI=1, TSTEP=3, timeout=70, reach_timeout=120),
+         thorough=dict(V=3, C=1, NI=4, TSTEP=1, timeout=1400, reach_timeout=300),
+         nshards=dict(quick=12, thorough=48),
          reach=["accepted_unmodified", "rejected_edit", "rejected_other_name", "rejected_expired",
                 "rejected_min_version"],
          classify=classify_forge,
@@ -243,7 +249,7 @@ def classify_total(pi, free, asstr, dictsec, ni, minv):
     return None
 
 
-TPFX = [b"", b"2|", b"2|1:0|", b"2|1:0|1:1|", b"2|1:0|1:1|0:|", b"1|", b"|", b"YQ==|1|"]
+TPFX = [b"", b"2|", b"2|1:0|", b"2|1:0|1:1|0:|", b"2|1:0|1:1|0:|0:|", b"1|", b"|", b"YQ==|1|"]
 
 
 def pre_total(pi: int, free: bytes, asstr: bool, dictsec: bool, ni: int, minv: int) -> bool:
@@ -254,12 +260,12 @@ def pre_total(pi: int, free: bytes, asstr: bool, dictsec: bool, ni: int, minv: i
     return in_shard(pi + len(TPFX) * len(free))
 
 
-@harness(pre=pre_total, quick=dict(L=3, timeout=120, reach_timeout=60), thorough=dict(L=5, timeout=1200),
-         nshards=dict(quick=32, thorough=48), reach=["v2_fields_parsed", "v1_three_parts"],
+@harness(pre=pre_total, quick=dict(L=2, timeout=70, reach_timeout=200), thorough=dict(L=5, timeout=1200, reach_timeout=300),
+         nshards=dict(quick=24, thorough=48), reach=["v2_fields_parsed", "v1_three_parts"],
          classify=classify_total,
          units=["web.decode_signed_value", "web._get_version", "web._decode_signed_value_v1",
                 "web._decode_signed_value_v2", "web._decode_fields_v2", "web.get_signature_key_version"],
-         stubs=STUBS + ["input = pooled prefix (empty, '2|', '2|1:0|', '2|1:0|1:1|', '2|1:0|1:1|0:|', '1|', '|', "
+         stubs=STUBS + ["input = pooled prefix (empty, 2|, 2|1:0|, 2|1:0|1:1|0:|, 2|1:0|1:1|0:|0:|, '1|', '|', "
                         "'YQ==|1|') + any free bytes up to L (also presented as latin-1 str)"],
          outside=OUTSIDE + ["free part longer than L"])
 def h_total(pi: int, free: bytes, asstr: bool, dictsec: bool, ni: int, minv: int):
@@ -271,7 +277,8 @@ def h_total(pi: int, free: bytes, asstr: bool, dictsec: bool, ni: int, minv: int
         kv = web.get_signature_key_version(v)
     except Exception as e:
         raise AssertionError("reader raised %r on %r" % (e, s))
-    if s.startswith(b"2|") and kv is not None:
+    if pi == 4 and len(free) == 0:
+        assert kv == 0, "well-formed v2 field block must yield its key version"
         reached("v2_fields_parsed")
     if len(s.split(b"|")) == 3:
         reached("v1_three_parts")
